@@ -20,6 +20,7 @@ import (
 	"github.com/cosmos/cosmos-sdk/client"
 	"github.com/cosmos/cosmos-sdk/server"
 	simtestutil "github.com/cosmos/cosmos-sdk/testutil/sims"
+	"github.com/cosmos/cosmos-sdk/telemetry"
 	sdk "github.com/cosmos/cosmos-sdk/types"
 
 	chainapp "github.com/EscanBE/evermint/v12/app"
@@ -33,6 +34,18 @@ type NodeOpts struct {
 	Tracer       string // evm.tracer: "", "json", "struct", "access_list", "markdown"
 	IndexEvents  []string
 	DB           sdkdb.DB // nil -> fresh MemDB
+	Telemetry    bool     // app.toml [telemetry] enabled = true (a process-wide switch in the SDK: set around every ABCI call)
+}
+
+var telemetryOn bool
+
+// nodeTelemetry does what server start-up does with the [telemetry] section of app.toml.
+func nodeTelemetry(on bool) {
+	if telemetryOn == on {
+		return
+	}
+	_, _ = telemetry.New(telemetry.Config{ServiceName: "verif", Enabled: on, EnableHostname: false, PrometheusRetentionTime: 0})
+	telemetryOn = on
 }
 
 // Obs is one observation point inside FinalizeBlock.
@@ -246,6 +259,7 @@ func HeaderHash(height int64, t time.Time) []byte {
 
 // RunBlock executes FinalizeBlock + Commit for the next height.
 func (c *Chain) RunBlock(b Block) (res *abci.ResponseFinalizeBlock, err error) {
+	nodeTelemetry(c.Opts.Telemetry)
 	defer c.guard("FinalizeBlock", &err)
 	h := c.Height + 1
 	t := c.Time.Add(time.Duration(b.Dt) * time.Second)
@@ -308,6 +322,7 @@ func (c *Chain) PendingCtx() sdk.Context {
 
 // CheckTx runs CheckTx (new or recheck).
 func (c *Chain) CheckTx(tx []byte, recheck bool) (res *abci.ResponseCheckTx, err error) {
+	nodeTelemetry(c.Opts.Telemetry)
 	defer c.guard("CheckTx", &err)
 	typ := abci.CheckTxType_New
 	if recheck {
@@ -318,12 +333,14 @@ func (c *Chain) CheckTx(tx []byte, recheck bool) (res *abci.ResponseCheckTx, err
 
 // Simulate runs BaseApp.Simulate.
 func (c *Chain) Simulate(tx []byte) (gi sdk.GasInfo, res *sdk.Result, err error) {
+	nodeTelemetry(c.Opts.Telemetry)
 	defer c.guard("Simulate", &err)
 	return c.App.Simulate(tx)
 }
 
 // Query runs an ABCI query at the latest height.
 func (c *Chain) Query(path string, data []byte, height int64) (res *abci.ResponseQuery, err error) {
+	nodeTelemetry(c.Opts.Telemetry)
 	defer c.guard("Query", &err)
 	return c.App.Query(nil, &abci.RequestQuery{Path: path, Data: data, Height: height})
 }
